@@ -140,9 +140,34 @@ def run_case(ctx, g):
     rng = ctx.case_rng(g["kind"], g["index"])
     c = gen_case(ctx, g, rng)
     try:
+        prelude(ctx, g, c)
         _run(ctx, g, c)
     finally:
         c["lib"].drop_file()
+
+
+def prelude(ctx, g, c):
+    """call history in one process: before the case proper, the sampler is called once on ANOTHER library of the same size
+    (same effective budget) whose likelihoods are all higher and which is evaluated deeply; state that survives between calls
+    (module-level caches, workspaces keyed by size) would make the case proper judge against the wrong maximum"""
+    prng = ctx.case_rng("it:prelude", g["index"])
+    if prng.random() >= 0.4 or c["pool"] is not None:
+        return
+    N = c["N"]
+    lib0 = rc.Library(prng, c["pr"], N, with_ln_prior=True)
+    prof = np.asarray(c["profile"], dtype="f8")
+    prof0 = np.where(np.isfinite(prof), prof, 0.0) + 40.0 + prng.uniform(0, 5, N)       # all finite, all higher
+    kw0 = dict(n_requested_samples=max(1, N // 2), init_batch_size=max(1, N // 6), n_linear_samples=1,
+               in_memory=c["path"] == "inmem")
+    if c["kw"].get("max_prior_samples") is not None:
+        kw0["max_prior_samples"] = c["kw"]["max_prior_samples"]
+        if kw0["init_batch_size"] > kw0["max_prior_samples"]:
+            kw0["init_batch_size"] = max(1, int(kw0["max_prior_samples"]) // 2)
+    gen0 = rc.CraftGen(int(prng.integers(0, 2 ** 31)))
+    res, raised = rc.run_call(c["pr"], lib0, prof0, gen0, "iterative_rejection_sample", kw0, pool=None,
+                              source="object" if c["path"] != "file" else "file")
+    lib0.drop_file()
+    ctx.count(f"prelude: an earlier call on another library of the same size ({c['path']})" + (" (raised)" if raised else ""))
 
 
 def _run(ctx, g, c):
@@ -337,6 +362,8 @@ def _run(ctx, g, c):
 
 
 def post(ctx):
+    ctx.require("in-memory cases preceded by a call on another library of the same size",
+                ctx.counters["prelude: an earlier call on another library of the same size (inmem)"], 15)
     ctx.rule = RULE
     need = 30 if ctx.thorough else 10
     for k in ("growth rounds: 0", "growth rounds: 1", "growth rounds: 2+", "exit:enough", "exit:budget-exhausted",
